@@ -152,8 +152,10 @@ def apply_baseline(prop, obs):
         return obs
     have = {norm_id(o.id) for o in obs}
     out = list(obs)
+    # a unit reported as outside the verified subset already accounts for all of its obligations: one line, not one per obligation
+    outside = [o.id[:-len('subset')] for o in obs if o.id.endswith('/subset') and o.status != DISCHARGED]
     for b in base:
-        if b not in have:
+        if b not in have and not any(b.startswith(pre) for pre in outside):
             out.append(Ob(id=b, status=UNDECIDED, backend='none', clause='obligation of the committed baseline was not generated on this tree',
                           solver_output='not generated: the function left the shape its contract was written for, or a path under contract no longer exists'))
     return out
